@@ -292,11 +292,14 @@ _EST = dict(name="estimate_wait_positive_when_full_small", crate="leaves", harne
             bounded="previous_count in 0..=3 (enumerated), limit_for_period in 1..=4, current_count <= limit, bucket = 1 s, elapsed/bucket in [0, 0.999999] symbolic f64",
             claim="BOUNDED: when no slot is free the sliding counter's wait estimate is >= 1 microsecond of a 1 s bucket, so Ok(ZERO) is only ever returned together with a counted admission "
                   "(the unbounded harness estimate_wait_positive_when_full does not close in 20 min and stays a named assumption)")
+_EST_D = dict(_EST, name="estimate_wait_positive_when_full_dense", harness="estimate_wait_positive_when_full_dense", timeout=900,
+              bounded="previous_count = 10_000 (a full previous bucket of a dense limiter), bucket = 1 ms, limit_for_period = 10_000, current_count = 5_000, elapsed/bucket in [0, 0.999999] symbolic f64",
+              claim="BOUNDED: for a dense limiter (10_000 permits per millisecond bucket, where the estimate is smallest) the wait estimate with no slot free is still >= 1 ns: a unit conversion that truncates it to zero is refuted")
 _SAT = [h for h in PROPS["C14"]["kani"] if h["name"] in ("backoff_saturates_at_the_cap", "backoff_positive_stays_positive")]
 _EST_M = dict(_EST, name="estimate_wait_positive_when_full_medium", harness="estimate_wait_positive_when_full_medium", tier="thorough", timeout=1500,
               bounded="previous_count in 0..=7 (enumerated), limit_for_period in 1..=8, current_count <= limit, bucket = 1 s, elapsed/bucket in [0, 0.999999] symbolic f64",
               claim="BOUNDED (thorough tier, wider domain, ~4 min): " + _EST["claim"][len("BOUNDED: "):])
-for _p, _h in (("C02", [_EST, _EST_M]), ("C15", [_EST, _EST_M]), ("C05", _SAT)):
+for _p, _h in (("C02", [_EST, _EST_D, _EST_M]), ("C15", [_EST, _EST_D, _EST_M]), ("C05", _SAT)):
     PROPS[_p]["kani"] = PROPS[_p].get("kani", []) + _h
 
 PROPS["C20"] = dict(
